@@ -47,7 +47,7 @@ CHECKS = {
                  thorough=dict(shards=4, checks=1, timeout=1500)),
             dict(pkg="gate", run="^FuzzC09$", kind="fuzz", seconds=60),
         ],
-        rule="pre-drawn scenarios on the public open_game_manager API: 1..4 set-ups of 1..10 participants with fresh game counts, ready signals in every order/subset with repetitions and unknown ids, re-set-up with signals still pending or unprocessed, rebuild from GetState(), and (timeout leg, executed side by side) real 1-2 s timeout expiry; oracle = firing log obligations (at most once per set-up, not before the last missing signal unless the timeout elapsed, reported game count/participants/all ready, superseded set-up silent, unknown rejected without state change); non-trivial = >=2 participants and (duplicate | unknown | superseding set-up with pending signals | timeout firing | rebuild); distinct = distinct op sequences",
+        rule="pre-drawn scenarios on the public open_game_manager API: 1..4 set-ups of 1..10 participants with fresh game counts, ready signals in every order/subset with repetitions and unknown ids, re-set-up with signals still pending or unprocessed, rebuild from GetState(), and (timeout leg, executed side by side) real 1-2 s timeout expiry, rebuilds from a state that carries another timeout than the configuration; every gate call runs under a 10 s guard (a call that never returns is a verdict); oracle = firing log obligations (at most once per set-up, not before the last missing signal unless the timeout elapsed, reported game count/participants/all ready, superseded set-up silent, unknown rejected without state change); non-trivial = >=2 participants and (duplicate | unknown | superseding set-up with pending signals | timeout firing | rebuild); distinct = distinct op sequences",
         mandatory=dict(quick=['same_game_count_again', "empty_setup", "dup", "unknown", "supersede_pending", "timeout_fire", "rebuild", "all_ready_fire", "parts_1", "parts_10"]),
         assumptions=["firing is looked for during a bounded window (30 ms grace after the last operation, 1.5 s margin around timeouts); monotonic time only as a lower bound"],
     ),
@@ -70,7 +70,7 @@ CHECKS = {
                dict(pkg="table", run="^TestC05AutoSeat$",
                     quick=dict(shards=1, checks=1, timeout=240),
                     thorough=dict(shards=4, checks=1, timeout=600))],
-        rule='cases = membership-heavy histories of 3-25 hands (arrivals before and after the first hand at every seat relative to the button, sitting-out players joining later, busts forced by short stacks, re-buys, departures, in-hand arrivals); oracle: three-valued eligibility model on the published button seats (must / must not / either for heads-up<->ring button jumps), continuity, at least two dealt in, bounded wait <= 3 hands; non-trivial = a hand where the dealt-in set differs from all seated players with chips, or a re-buy after a bust; distinct = distinct abstract traces',
+        rule='cases = membership-heavy histories of 3-25 hands (arrivals before and after the first hand at every seat relative to the button, sitting-out players joining later, busts forced by short stacks, re-buys, departures, in-hand arrivals); oracle: three-valued eligibility model on the published button seats (must / must not / either for heads-up<->ring button jumps), continuity, at least two dealt in, bounded wait <= 3 hands; plus (auto-seat part) tables with players who only reserved, a real 17 s wait until the engine has seated them in by itself, table / seat-manager agreement and a first hand that must deal in everybody seated-in with chips; non-trivial = a hand where the dealt-in set differs from all seated players with chips, or a re-buy after a bust; distinct = distinct abstract traces',
         mandatory=dict(quick=['newcomer_between', 'newcomer_outside', 'rebuy_after_bust', 'sitout_then_join', 'someone_waited_or_sat_out', 'waited_1']),
         assumptions=ASSUME_COMMON,
     ),
@@ -128,7 +128,7 @@ CHECKS = {
                dict(pkg="table", run="^TestC10Burst$",
                     quick=dict(shards=3, checks=120, timeout=300),
                     thorough=dict(shards=12, checks=2000, timeout=1800))],
-        rule='cases = generated table histories in which, at every decision point (group requests, turns, after settlement, paused), 0-3 intruder attempts are drawn from a 5x9 actor/action matrix (current player with a disallowed kind, other participant, folded/all-in participant, seated non-participant, stranger) x (fold check call bet raise allin pass ready pay); oracle: an attempt the hand does not allow returns an error and table JSON, hand-state JSON, successful backend calls and emitted events are identical before and after; every accepted driver action is applied exactly once and announced once with player, seat, action, round, hand; concurrent part (c10b): at drawn turns every player at the table and strangers submit an action at the same instant - accepted submissions = announced actions, each successful backend call belongs to the entry whose turn it then was, the hand still settles with chips conserved and equal to the pure replay; non-trivial = a case with >=1 refused attempt by a dealt-in player out of turn and >=1 by a non-participant; distinct = distinct abstract traces',
+        rule='cases = generated table histories in which, at every decision point (group requests, turns, after settlement, paused), 0-3 intruder attempts are drawn from a 5x9 actor/action matrix (current player with a disallowed kind, other participant, folded/all-in participant, seated non-participant, stranger) x (fold check call bet raise allin pass ready pay); oracle: an attempt the hand does not allow returns an error and table JSON, hand-state JSON, successful backend calls and emitted events are identical before and after; every accepted driver action is applied exactly once and announced once with player, seat, action, round, hand; concurrent part (c10b): at drawn turns every player at the table and strangers submit an action at the same instant - accepted submissions = announced actions, each successful backend call belongs to the entry whose turn it then was, the hand still settles with chips conserved and equal to the pure replay; accepted ante / blind payments are matched per phase against the pay events when the hand is settled (a phase of which nothing was announced is excluded); non-trivial = a case with >=1 refused attempt by a dealt-in player out of turn and >=1 by a non-participant; distinct = distinct abstract traces',
         mandatory=dict(quick=['accepted_pay_announced', 'ante_and_blind_paid_by_one_player', 'inhand_leave_below_participant', 'inhand_leave', 'table_stopped_mid_hand_PauseTable', 'table_stopped_mid_hand_CloseTable', 'cell:current/pass', 'cell:participant/fold', 'cell:inactive/check', 'cell:nonparticipant/call', 'cell:stranger/bet', 'attempt_group_request', 'attempt_after_settle', 'attempt_when_paused']),
         assumptions=ASSUME_COMMON,
     ),
